@@ -68,6 +68,7 @@ type script struct {
 	Seed   int64  `json:"seed,omitempty"`
 	Shape  string `json:"shape,omitempty"`
 	Size   int    `json:"size,omitempty"`
+	Deep   int    `json:"deep,omitempty"` // shape "deepwide": length of the common chain below the wide level
 	Budget int    `json:"budget,omitempty"` // scheduler steps before the fair suffix
 	Loss   int    `json:"loss,omitempty"`
 	Dup    int    `json:"dup,omitempty"`
@@ -106,6 +107,7 @@ type result struct {
 	Kinds      map[string]int   `json:"kinds"`
 	TxTotal    int              `json:"tx_total"`
 	Paths      map[string]int   `json:"paths"`
+	Livelock   int              `json:"livelock,omitempty"` // rounds cut short: thousands of deliveries without any progress
 }
 
 // ------------------------------------------------------------------------------------ transactions
@@ -839,13 +841,41 @@ func (s *sim) inject(n, p, k string, c *ctx) {
 }
 
 // fairSuffix: deliver everything in FIFO order, let open conversations time out, tick gossip; repeat.
+// drain delivers everything in flight, in order. A correct protocol makes progress (some node stores something new) or
+// falls silent; thousands of deliveries in a row without any node's digest changing is a livelock (messages going round
+// in circles): the round is cut short and the run ends as "not converged".
+func (s *sim) drain() bool {
+	digest := func() string {
+		out := ""
+		for _, n := range s.order {
+			x, _ := s.nodes[n].state.XOR(dag.MaxLamportClock)
+			out += x.String()
+		}
+		return out
+	}
+	last := digest()
+	idle := 0
+	for len(s.net) > 0 {
+		s.deliver(0, false)
+		idle++
+		if idle%50 == 0 {
+			if d := digest(); d != last {
+				last, idle = d, 0
+			}
+		}
+		if idle > 2500 {
+			s.res.Livelock++
+			return false
+		}
+	}
+	return true
+}
+
 func (s *sim) fairSuffix(maxRounds int) bool {
 	for round := 1; round <= maxRounds; round++ {
 		s.res.Rounds = round
-		guard := 0
-		for len(s.net) > 0 && guard < 100000 {
-			s.deliver(0, false)
-			guard++
+		if !s.drain() && s.res.Livelock >= 3 {
+			return s.converged()
 		}
 		if s.converged() {
 			return true
@@ -869,11 +899,7 @@ func (s *sim) fairSuffix(maxRounds int) bool {
 			}
 		}
 	}
-	guard := 0
-	for len(s.net) > 0 && guard < 100000 {
-		s.deliver(0, false)
-		guard++
-	}
+	s.drain()
 	return s.converged()
 }
 
@@ -1051,6 +1077,21 @@ func buildShape(u *universe, sc script, nodes []string) (map[string][]*ctx, map[
 		init[b] = append([]*ctx{root}, ca[:size/10]...)
 	case "wide": // difference larger than one IBLT can decode inside one page: many siblings
 		common := chain("c", root, 530) // the wide level lies on the second page
+		top := common[len(common)-1]
+		init[a] = append([]*ctx{root}, common...)
+		init[b] = append([]*ctx{root}, common...)
+		for i := 0; i < size; i++ {
+			init[a] = append(init[a], u.add(fmt.Sprintf("wa%d", i), []string{top.name}, int(top.lc)+1, true, false))
+		}
+		for i := 0; i < size/3; i++ {
+			init[b] = append(init[b], u.add(fmt.Sprintf("wb%d", i), []string{top.name}, int(top.lc)+1, true, false))
+		}
+	case "deepwide": // an undecodable difference on the third (or a later) page, everything below it in sync
+		deep := sc.Deep
+		if deep == 0 {
+			deep = 1040
+		}
+		common := chain("c", root, deep)
 		top := common[len(common)-1]
 		init[a] = append([]*ctx{root}, common...)
 		init[b] = append([]*ctx{root}, common...)
